@@ -549,7 +549,7 @@ cfoldBCall(Foam bcall)
 	  case FOAM_BVal_SIntIsOdd:
 		if (!cfoldFoldAll) break;
 		assert(foamTag(argv[0]) == FOAM_SInt);
-		foam = foamNewBool((argv[0]->foamSInt.SIntData % 2) == 1);
+		foam = foamNewBool((argv[0]->foamSInt.SIntData % 2) != 0);
 		break;
 	  case FOAM_BVal_SIntEQ:
 		if (!cfoldFoldAll) break;
